@@ -2,9 +2,19 @@
 
 package fluentdforward
 
+import (
+	"github.com/relex/gotils/logger"
+	"github.com/relex/slog-agent/output/baseoutput"
+)
+
 // SetChunkLimitsForVerif sets the chunk limits used by chunk makers created afterwards and returns the previous values
 func SetChunkLimitsForVerif(maxRecords, maxSizeBytes int) (int, int) {
 	oldRecords, oldBytes := chunkMaxRecords, chunkMaxSizeBytes
 	chunkMaxRecords, chunkMaxSizeBytes = maxRecords, maxSizeBytes
 	return oldRecords, oldBytes
+}
+
+// OpenConnectionForVerif opens the real Forward connection (the ClosableClientConnection under the client worker)
+func OpenConnectionForVerif(parentLogger logger.Logger, config UpstreamConfig) (baseoutput.ClosableClientConnection, error) {
+	return openForwardConnection(parentLogger, config)
 }
